@@ -142,6 +142,21 @@ func (f *FieldCopyFromGenerator) nextField(g func(g *j.Group)) *j.Statement {
 	)
 }
 
+// allocateEmbedded allocates the nullable embedded message the field is promoted from, if it is not there yet:
+//
+//	if obj.Embedded == nil { obj.Embedded = &Embedded{} }
+//
+// Must be called only where a known, non-null value is about to be stored, otherwise we would get
+// the default values for all the inner fields.
+func (f *FieldCopyFromGenerator) allocateEmbedded(g *j.Group) {
+	if !f.ParentIsOptionalEmbed {
+		return
+	}
+	g.If(j.Id("obj." + f.ParentIsOptionalEmbedFieldName).Op("==").Nil()).Block(
+		j.Id("obj." + f.ParentIsOptionalEmbedFieldName).Op("=").Id("&" + f.ParentIsOptionalEmbedFullType + "{}"),
+	)
+}
+
 // genPrimitiveBody generates fragment which converts attr.Value v to go variable t
 func (f *FieldCopyFromGenerator) genPrimitiveBody(g *j.Group) {
 	// var t float32 || *float32, acts as zero value if needed
@@ -165,11 +180,15 @@ func (f *FieldCopyFromGenerator) genListOrMapIterator(g *j.Group, typ *j.Stateme
 	objFieldName := "obj." + f.Name
 
 	// obj.List = make([]string, 0) - same for maps. A null or unknown value has no elements,
-	// whatever its Elems hold.
-	g.Id(objFieldName).Op("=").Make(j.Id(f.i.WithType(f.GoType)), j.Lit(0))
+	// whatever its Elems hold. (A field promoted from a nullable embedded message has been reset
+	// together with the embedded message.)
+	if !f.ParentIsOptionalEmbed {
+		g.Id(objFieldName).Op("=").Make(j.Id(f.i.WithType(f.GoType)), j.Lit(0))
+	}
 
 	// if !v.Null
 	g.If(j.Id("!v.Null && !v.Unknown")).BlockFunc(func(g *j.Group) {
+		f.allocateEmbedded(g)
 		// obj.List = make([]string, len(v.Elems)) - same for maps
 		g.Id(objFieldName).Op("=").Make(j.Id(f.i.WithType(f.GoType)), j.Len(j.Id("v.Elems")))
 
@@ -192,6 +211,7 @@ func (f *FieldCopyFromGenerator) genPrimitive() *j.Statement {
 		if f.OneOfName != "" {
 			// Do not set empty oneOf value to not override values possibly set by other branches
 			g.If(j.Id("!v.Null && !v.Unknown")).BlockFunc(func(g *j.Group) {
+				f.allocateEmbedded(g)
 				g.Id("obj." + f.OneOfName).Op("=").Id("&" + f.i.WithType(f.OneOfType)).Values(j.Dict{
 					j.Id(f.Name): j.Id("t"),
 				})
@@ -202,9 +222,7 @@ func (f *FieldCopyFromGenerator) genPrimitive() *j.Statement {
 		if f.ParentIsOptionalEmbed {
 			// If the current value is Null or Unknown, we should not set the parent field, otherwise we will get the default values for all the inner fields.
 			g.If(j.Id("!v.Null && !v.Unknown")).BlockFunc(func(g *j.Group) {
-				g.If(j.Id("obj." + f.ParentIsOptionalEmbedFieldName).Op("==").Nil()).Block(
-					j.Id("obj." + f.ParentIsOptionalEmbedFieldName).Op("=").Id("&" + f.ParentIsOptionalEmbedFullType + "{}"),
-				)
+				f.allocateEmbedded(g)
 				g.Id("obj." + f.Name).Op("=").Id("t")
 			})
 			return
@@ -221,7 +239,11 @@ func (f *FieldCopyFromGenerator) genObject() *j.Statement {
 
 	return f.nextField(func(g *j.Group) {
 		if f.OneOfName == "" {
-			if f.IsNullable {
+			// A field promoted from a nullable embedded message is not reset here: the embedded message
+			// has been reset as a whole and is allocated only when one of its fields has a value.
+			if f.ParentIsOptionalEmbed {
+				// nothing to reset
+			} else if f.IsNullable {
 				// obj.Nested = nil
 				g.Id(objFieldName).Op("=").Nil()
 			} else {
@@ -230,6 +252,7 @@ func (f *FieldCopyFromGenerator) genObject() *j.Statement {
 			}
 			// if !v.Null
 			g.If(j.Id("!v.Null && !v.Unknown")).BlockFunc(func(g *j.Group) {
+				f.allocateEmbedded(g)
 				if f.IsNullable {
 					// obj.Nested = &Nested{} - also for a message without fields: a value that is not null is a set message
 					g.Id(objFieldName).Op("=&").Id(f.i.WithType(f.GoElemTypeIndirect)).Values()
@@ -253,6 +276,7 @@ func (f *FieldCopyFromGenerator) genObject() *j.Statement {
 			// We do not need nullable checks because all oneOf branches are nullable by design
 			// We do not need to assign OneOf explicitly to not overrite other OneOf branch values
 			g.If(j.Id("!v.Null && !v.Unknown")).BlockFunc(func(g *j.Group) {
+				f.allocateEmbedded(g)
 				g.Id("b").Op(":=&").Id(f.i.WithType(f.GoElemTypeIndirect)).Values()
 
 				g.Id("obj." + f.OneOfName).Op("=").Id("&" + f.i.WithType(f.OneOfType)).Values(j.Dict{
